@@ -120,7 +120,7 @@ def declare(reg, eng):
                  modifies=["self.currentstatus", "self.target.unsatisfied", "self.target.state", "self.target.failure_status", "self.target._readyEvent._set"])
 
     # ---- registry of jobs
-    reg.contract("Scheduler.aio_registerJob", unreachable_ok=['logger.warning("Exit mode: not submitting")'], params=["self", "job"], types={"self": "Scheduler", "job": "Job"},
+    reg.contract("Scheduler.aio_registerJob", unreachable_ok=['logger.warning("Exit mode: not submitting")', 'if self.exitmode:   [never true]'], params=["self", "job"], types={"self": "Scheduler", "job": "Job"},
                  requires=["isint(self.xp.unfinishedJobs)", "self.exitmode == False", "isstr(job.identifier)"],
                  ensures=[
                      ("C05", "implies(old(haskey(self.jobs, job.identifier)) and old(lookup(self.jobs, job.identifier, Job).state) != JobState.ERROR, "
